@@ -830,6 +830,31 @@ void World::CheckRecordedDeps(const InvRecord& r) {
   }
 }
 
+// C01, the clause about edits during a build: what makes "a file edited while a
+// command that reads it was running is picked up by the next run" true is that
+// the log entry of an ordinary command carries the time the command STARTED.
+// An entry of a statement that is neither restat (by its rule or its dyndep file)
+// nor generator with a later time means that every edit between the start and that
+// time is invisible to the next build.
+void World::CheckLogTimes(const InvRecord& r) {
+  if (r.plan.dry || !r.plan.tool.empty() || r.fault_fired || r.log_torn_tail_before) return;
+  if (r.res.end != ProcResult::kExit || !r.log_after.valid_header) return;
+  for (const SpawnRec& x : r.spawns) {
+    if (x.stmt < 0 || x.stmt >= (int)sc.stmts.size() || x.reap_status != 0 || !x.reap_seq || x.outs.empty()) continue;
+    const Stmt& s = sc.stmts[x.stmt];
+    const DyndepEntry* de = sc.DyndepFor(x.stmt);
+    if (s.restat || s.generator || s.phony || (de && de->restat)) continue;
+    auto a = r.log_after.last.find(x.outs[0]);
+    if (a == r.log_after.last.end()) continue;
+    auto b = r.log_before.last.find(x.outs[0]);
+    bool fresh = b == r.log_before.last.end() || b->second.start != a->second.start || b->second.end != a->second.end || b->second.mtime != a->second.mtime || b->second.hash != a->second.hash;
+    if (!fresh) continue;
+    stats->n["log_start_time_checked"]++;
+    if (a->second.mtime > x.time)
+      Report("C01", "edit_window_missed", "the build-log entry of statement " + S(x.stmt) + " (not restat, not generator) carries time " + S(a->second.mtime) + ", later than the start of its command at " + S(x.time) + ": an input edited in between is not picked up by the next build");
+  }
+}
+
 void World::CheckAll(InvRecord& r) {
   CheckTermination(r);
   CheckOrdering(r);
@@ -841,6 +866,7 @@ void World::CheckAll(InvRecord& r) {
   CheckContent(r, "C01");
   CheckMinimality(r);
   CheckRecordedDeps(r);
+  CheckLogTimes(r);
   UpdateCleanState(r);
 }
 
